@@ -775,6 +775,11 @@ def gen_init_orders(rng, variant='exc', alloc=False, fill=None):
             S.append(['initp', p, 'cxx'])
             for fn, sig in rng.sample(list(map(tuple, CAT[n]['caps'])), min(3, len(CAT[n]['caps']))):
                 S.append(eval_line(p, 'cxx', fn, sig, admissible_point(rng, n, sig), rng.randint(-1, 4)))
+            # integer arguments (gradient direction, moment order) at and far beyond their range, either sign
+            for fn, sig in map(tuple, CAT[n]['caps']):
+                if 'I' in sig:
+                    for di in (-1000000, -2, -1, 0, CAT[n]['dim'] + 1, 1000000):
+                        S.append(eval_line(p, 'cxx', fn, sig, admissible_point(rng, n, sig), di))
     for i, n in enumerate(rng.sample(names, 8)):
         S.append(['init', 'd', 'c', 'h%d' % i, n]); S.append(['init', 'ld', 'cxx', 'h%d' % i, n])
     S.append(['list', 'd', 'cxx']); S.append(['list', 'ld', 'cxx'])
